@@ -87,6 +87,7 @@ func props() map[string]Prop {
 				{Name: "conc", Pkg: "internal/upload", Harness: "internal_upload", Run: "^TestVerifUploadConc$", Instrument: uploadInstr, Timeout: 40 * time.Minute},
 				{Name: "race", Pkg: "internal/upload", Harness: "internal_upload", Run: "^TestVerifUploadRace$", Instrument: uploadInstr, Race: true, Timeout: 40 * time.Minute},
 				{Name: "faults", Pkg: "internal/upload", Harness: "internal_upload", Run: "^TestVerifC05Upload$", Instrument: append(append([]string{}, uploadInstr...), "internal/counter"), Timeout: 30 * time.Minute},
+				{Name: "procs", Pkg: "internal/upload", Harness: "internal_upload", Run: "^TestVerifUploadProcs$", Instrument: uploadInstr, Timeout: 40 * time.Minute},
 			},
 			Assume: []string{"counter names are valid UTF-8 and sums stay below 2^62 (reports carry int64 in JSON)", "counter files are produced by the independent writer in /verif/ref with the documented metadata"},
 		},
@@ -112,9 +113,10 @@ func props() map[string]Prop {
 			Units: []Unit{
 				{Name: "conc", Pkg: "internal/upload", Harness: "internal_upload", Run: "^TestVerifUploadConc$", Instrument: uploadInstr, Timeout: 40 * time.Minute},
 				{Name: "race", Pkg: "internal/upload", Harness: "internal_upload", Run: "^TestVerifUploadRace$", Instrument: uploadInstr, Race: true, Timeout: 40 * time.Minute},
+				{Name: "procs", Pkg: "internal/upload", Harness: "internal_upload", Run: "^TestVerifUploadProcs$", Instrument: uploadInstr, Timeout: 40 * time.Minute},
 			},
 			Assume: []string{
-				"uploaders are virtual threads in one process sharing the directory; a kill parks the thread for ever at a scheduling point (no deferred cleanup runs), which equals kill -9 for code whose shared state is the file system",
+				"scheduler pass: uploaders are virtual threads in one process sharing the directory; a kill parks the thread for ever at a scheduling point (no deferred cleanup runs), which equals kill -9 for code whose shared state is the file system; the procs unit repeats the histories with real processes and real SIGKILLs (strace fault injection at system-call entry)",
 				"'eventually acknowledged' is judged as: acknowledged within the scenario's rounds plus one extra round after a failed request",
 			},
 		},
